@@ -98,6 +98,7 @@ static const item *PFX;
 static int         pfx_pos;
 static long        clock_calls;
 int                vs_atomic_points;
+int                vs_alloc_points;
 int                vs_unlock_points = 2;
 int                vs_io_points;
 int                vs_io_maxclamp = 8;
@@ -575,6 +576,35 @@ __wrap_nni_random(void)
 {
 	vs_random_seed = vs_random_seed * 1664525u + 1013904223u;
 	return vs_random_seed;
+}
+
+// ---- optional: allocator calls as scheduling points -------------------------------------
+// (vs_alloc_points: code that rebuilds a structure - allocate, copy, free - without holding the
+// lock that its users hold has no synchronisation operation inside; the allocator calls are the
+// only places where another thread can be let in)
+void *__real_nni_alloc(size_t);
+void *__real_nni_zalloc(size_t);
+void  __real_nni_free(void *, size_t);
+void *
+__wrap_nni_alloc(size_t n)
+{
+	if (self && vs_alloc_points && window)
+		yield_to_sched();
+	return __real_nni_alloc(n);
+}
+void *
+__wrap_nni_zalloc(size_t n)
+{
+	if (self && vs_alloc_points && window)
+		yield_to_sched();
+	return __real_nni_zalloc(n);
+}
+void
+__wrap_nni_free(void *p, size_t n)
+{
+	__real_nni_free(p, n);
+	if (self && vs_alloc_points && window)
+		yield_to_sched();
 }
 
 // ---- optional: atomics as scheduling points --------------------------------
